@@ -86,7 +86,8 @@ def build_entry(I, con: Contract, node, case_types):
     rest = params
     is_method = con.self_spec is not None
     if is_method:
-        self_obj = con.self_spec.fresh(I, "self", overrides=(case_types or {}).get("__self__") or con.self_overrides)
+        spec_ = (case_types or {}).get("__selfspec__") or con.self_spec  # a case may run the method on a subclass
+        self_obj = spec_.fresh(I, "self", overrides=(case_types or {}).get("__self__") or con.self_overrides)
         bindings[params[0]] = self_obj
         rest = params[1:]
     elif params and params[0] == "cls" and "cls" in (case_types or con.args):
@@ -178,6 +179,12 @@ def run_path(con: Contract, case, prefix, worklist, report: FunctionReport, plan
         if con.modifies_ is not None and self_obj is not None:
             pass  # frame is checked at exit against the snapshot
         result, raised, exit_kind = None, None, "return"
+        from .calls import _contains_yield
+
+        if _contains_yield(node):
+            # a generator under contract: every yield is an effect ("yield", None, (value,), {}); a consumer may
+            # stop iterating at any yield (GeneratorExit is not modelled: the contracts speak about what is yielded)
+            I.yield_stack.append(lambda v: ctx.emit("yield", None, (v,), {}))
         try:
             kw = dict(kwargs)
             # positional parameters are passed by keyword; *args (if typed) follows them positionally
